@@ -27,6 +27,17 @@ package state
 
 //@ func flattenUserID
 //@   assigns nothing
+//@   ensures (userID == nil ==> result0 == 0 && !result1) && (userID != nil ==> result0 == *userID && result1)
+
+// a notice is filed under its own user, type and key (so that the next occurrence finds it again)
+//@ define keyMatches(k noticeKey, n *Notice) = k.hasUserID == (n.userID != nil) && k.userID == ite(n.userID != nil, *n.userID, 0) && k.noticeType == n.noticeType && k.key == n.key
+
+//@ func (*Notice).UserID
+//@   ensures (n.userID == nil ==> result0 == 0 && !result1) && (n.userID != nil ==> result0 == *n.userID && result1)
+
+//@ func (*State).unflattenNotices
+//@   props C05 C08
+//@   guard mapstore State.notices: val != nil && keyMatches(key, val)
 
 // A notice recorded without an explicit time gets a timestamp strictly later than every timestamp
 // handed out before; it is (re)announced with exactly that timestamp, so a client polling with
@@ -34,6 +45,7 @@ package state
 //@ func (*State).AddNotice
 //@   props C08
 //@   requires s != nil
+//@   guard mapstore State.notices: val != nil && keyMatches(key, val)
 //@   ensures result1 == nil && old(options == nil || options.Time.IsZero()) ==> s.lastNoticeTimestamp.After(old(s.lastNoticeTimestamp)) && final(now) == s.lastNoticeTimestamp
 //@   ensures result1 == nil ==> final(notice) != nil && final(notice).lastOccurred == final(now)
 //@   ensures result1 == nil && final(newOrRepeated) ==> final(notice).lastRepeated == final(now)
